@@ -1,31 +1,168 @@
-(* Props/C05.v — Nesting is bounded.  First layer: the limit constant of the current source and the
-   shape of RecursionCheck (checked by the translator) give: `check_recursion` refuses to enter
-   level LIMIT, and `check_depth` refuses key paths of LIMIT or more segments. *)
-From TV Require Import Base.Prelude Base.Winnow Gen.Consts Model.Tree Model.Parse.
+(* Props/C05.v — Nesting is bounded so no document can exhaust the stack.
 
-Lemma check_recursion_refuses {A} (p : parser A) i :
-  LIMIT <= S (depth i) -> exists i', check_recursion p i = Cut (err_of RecursionLimit) i'.
-Proof.
-  intro H. unfold check_recursion. cbn [depth set_depth].
-  destruct (Nat.leb LIMIT (S (depth i))) eqn:E.
-  - eexists; reflexivity.
-  - apply Nat.leb_gt in E. lia.
-Qed.
+   For every input, either it is rejected or the nesting depth of the decoded structure is bounded
+   by a constant that depends only on the recursion limit (LIMIT = 80, generated from the source):
 
+       value parsed on its own or as a key's value       <= 2 * LIMIT - 3 = 157   (attained)
+       inline table built by table_from_pairs            <=     LIMIT - 1 =  79   (attained)
+       whole document (tbl_depth: root table = 1,
+         child table +1, array-of-tables element +2)     <= 5 * LIMIT - 6 = 394   (attained, 7 KB)
+
+   however arrays, inline tables, dotted keys, table headers and arrays of tables are combined.
+   Every single construct nested n < LIMIT times is accepted; nested n >= LIMIT times it is rejected
+   with the recursion-limit error (sweep n <= LIMIT + 40 for the five constructs; every n, by
+   induction, for arrays and inline tables).  Proofs: Proofs/Depth{Base,Lex,Value,Doc,Limit,Sweep}.v.
+
+   What is NOT covered here (measured by the harness instead): the bytes of machine stack one level
+   of the real recursion costs, and the consumers (print, clone, drop, Debug, serde). *)
+From Coq Require Import List Bool Arith NArith Lia.
+From Coq.Strings Require Import Byte.
+From TV Require Import Base.Prelude Base.Winnow Gen.Consts Model.Tree Model.Parse Model.Document.
+From TV Require Import Proofs.DepthBase Proofs.DepthValue Proofs.DepthDoc Proofs.DepthLimit Proofs.DepthSweep.
+Import ListNotations.
+
+(* ---- first layer: the shape of RecursionCheck ---------------------------------------------- *)
 Theorem C05_enter_limit : forall (A : Type) (p : parser A) i,
   LIMIT <= S (depth i) -> exists i', check_recursion p i = Cut (err_of RecursionLimit) i'.
 Proof. exact @check_recursion_refuses. Qed.
 Print Assumptions C05_enter_limit.
 
 Theorem C05_key_path_limit : forall n, LIMIT <= n -> check_depth n = true.
-Proof. intros n H. unfold check_depth. apply Nat.leb_le. exact H. Qed.
+Proof. exact (fun n => proj2 (check_depth_true n)). Qed.
 Print Assumptions C05_key_path_limit.
 
 (* the recursion depth seen by a sub-parser never exceeds LIMIT - 1 *)
 Theorem C05_depth_inside : forall (A : Type) (p : parser A) i a i',
   check_recursion p i = Ok a i' -> S (depth i) < LIMIT.
-Proof.
-  intros A p i a i' H. unfold check_recursion in H. cbn [depth set_depth] in H.
-  destruct (Nat.leb LIMIT (S (depth i))) eqn:E; [discriminate|]. apply Nat.leb_gt in E. exact E.
-Qed.
+Proof. exact @check_recursion_inside. Qed.
 Print Assumptions C05_depth_inside.
+
+(* RecursionCheck::enter / exit are balanced: a successful value leaves the counter where it was *)
+Theorem C05_counter_restored : forall fuel i v i', value_f fuel i = Ok v i' -> depth i' = depth i.
+Proof. exact dp_value_f. Qed.
+Print Assumptions C05_counter_restored.
+
+(* an accepted key path (dotted key or header) has fewer than LIMIT segments *)
+Theorem C05_key_path_bound : forall i kp i', key_ i = Ok kp i' -> length kp < LIMIT.
+Proof. exact key_ok. Qed.
+Print Assumptions C05_key_path_bound.
+
+(* ---- 1. the per-pair depth check of table_from_pairs (the F12 repair) ----------------------- *)
+(* when every check passes, the loop is the unchecked loop (used by the C09 proofs) *)
+Theorem C05_loop_d_agrees : forall pairs m,
+  (forall p k v, In (p, (k, v)) pairs -> check_depth (length p + 1 + item_depth v) = false) ->
+  table_from_pairs_loop_d m pairs = table_from_pairs_loop m pairs.
+Proof. exact loop_d_agrees. Qed.
+Print Assumptions C05_loop_d_agrees.
+
+(* when the checked loop succeeds, every check passed and the unchecked loop gives the same table *)
+Theorem C05_loop_d_ok : forall pairs m m',
+  table_from_pairs_loop_d m pairs = COk m' ->
+  table_from_pairs_loop m pairs = COk m' /\
+  (forall p k v, In (p, (k, v)) pairs -> length p + 1 + item_depth v < LIMIT).
+Proof.
+  exact (fun pairs m m' H =>
+           conj (loop_d_ok_agrees pairs m m' H)
+                (fun p k v Hin => proj1 (check_depth_false _) (loop_d_ok_checks pairs m m' H p k v Hin))).
+Qed.
+Print Assumptions C05_loop_d_ok.
+
+(* ---- 2. inline tables ------------------------------------------------------------------------ *)
+Theorem C05_inline_depth_bound : forall pairs pre v,
+  table_from_pairs pairs pre = TmOk v -> value_depth v <= LIMIT - 1.
+Proof. exact inline_depth_bound. Qed.
+Print Assumptions C05_inline_depth_bound.
+
+(* ---- 3. values -------------------------------------------------------------------------------- *)
+(* relative to the recursion counter at the start of the value *)
+Theorem C05_value_depth_bound : forall fuel i v i',
+  value_f fuel i = Ok v i' -> value_depth v <= 2 * LIMIT - 3 - depth i.
+Proof. exact value_depth_bound_rel. Qed.
+Print Assumptions C05_value_depth_bound.
+
+Theorem C05_value_depth_bound_entry : forall s v,
+  parse_value_raw s = POk v -> value_depth v <= 2 * LIMIT - 3.
+Proof. exact parse_value_depth. Qed.
+Print Assumptions C05_value_depth_bound_entry.
+
+(* ---- 4. documents ------------------------------------------------------------------------------ *)
+(* DEPTH_BOUND = 5 * LIMIT - 6 *)
+Theorem C05_depth_bound : forall s d,
+  parse_document s = POk d -> tbl_depth (doc_root d) <= DEPTH_BOUND.
+Proof. exact document_depth_bound. Qed.
+Print Assumptions C05_depth_bound.
+
+Example C05_DEPTH_BOUND_is : DEPTH_BOUND = 5 * LIMIT - 6 /\ DEPTH_BOUND = 394.
+Proof. split; reflexivity. Qed.
+
+(* ---- 5. below the limit: accepted; at the limit: the recursion-limit error --------------------- *)
+(* every single construct nested n < LIMIT times is accepted (stronger than n <= LIMIT - 2) ... *)
+Theorem C05_below_accepted : forall n, 1 <= n < LIMIT ->
+  accepted (nested_arrays n) = true /\ accepted (nested_inline n) = true /\
+  accepted (dotted_key n) = true /\ accepted (header_path n) = true /\ accepted (aot_path n) = true.
+Proof. exact below_accepted. Qed.
+Print Assumptions C05_below_accepted.
+
+(* ... and decodes to the expected depth *)
+Theorem C05_below_depths : forall n, 1 <= n < LIMIT ->
+  depth_of (nested_arrays n) = Some (n + 1) /\ depth_of (nested_inline n) = Some (n + 1) /\
+  depth_of (dotted_key n) = Some n /\ depth_of (header_path n) = Some (n + 1) /\
+  depth_of (aot_path n) = Some (n + 2).
+Proof. exact below_depths. Qed.
+Print Assumptions C05_below_depths.
+
+(* finite sweep LIMIT .. LIMIT + 40, all five constructs *)
+Theorem C05_limit_error : forall n, LIMIT <= n <= LIMIT + 40 ->
+  limit_err (nested_arrays n) = true /\ limit_err (nested_inline n) = true /\
+  limit_err (dotted_key n) = true /\ limit_err (header_path n) = true /\ limit_err (aot_path n) = true.
+Proof. exact limit_error_sweep. Qed.
+Print Assumptions C05_limit_error.
+
+(* every n >= LIMIT, whatever follows the opening brackets / braces *)
+Theorem C05_limit_error_arrays : forall n tl, LIMIT <= n ->
+  exists at_, parse_document ([x61; x3d] ++ repeat x5b n ++ tl) = PErr (err_of RecursionLimit) (Some at_).
+Proof. exact doc_arrays_limit. Qed.
+Print Assumptions C05_limit_error_arrays.
+
+Theorem C05_limit_error_inline : forall n tl, LIMIT <= n ->
+  exists at_, parse_document ([x61; x3d] ++ braces n ++ tl) = PErr (err_of RecursionLimit) (Some at_).
+Proof. exact doc_inlines_limit. Qed.
+Print Assumptions C05_limit_error_inline.
+
+(* ---- examples ------------------------------------------------------------------------------------ *)
+(* the shapes really are what their names say *)
+Example C05_shapes :
+  nested_arrays 2 = [x61; x3d; x5b; x5b; x5d; x5d]                              (* a=[[]] *)
+  /\ nested_inline 2 = [x61; x3d; x7b; x6b; x3d; x7b; x6b; x3d; x31; x7d; x7d]  (* a={k={k=1}} *)
+  /\ dotted_key 3 = [x6b; x2e; x6b; x2e; x6b; x3d; x31]                          (* k.k.k=1 *)
+  /\ header_path 2 = [x5b; x6b; x2e; x6b; x5d]                                   (* [k.k] *)
+  /\ aot_path 2 = [x5b; x5b; x6b; x2e; x6b; x5d; x5d]                            (* [[k.k]] *)
+  /\ f12 2 2 = [x61; x3d; x7b; x6b; x2e; x6b; x3d; x7b; x6b; x2e; x6b; x3d; x31; x7d; x7d]. (* a={k.k={k.k=1}} *)
+Proof. repeat split; reflexivity. Qed.
+
+(* F12: inline tables x dotted keys.  3 levels x 79 segments decoded to depth 237 before the
+   repair; 40 x 79 (6.4 KB) to 3160.  Both are now refused with the recursion-limit error; so is the
+   smallest product that reaches the limit (2 x 40). *)
+Example C05_F12_rejected :
+  limit_err (f12 3 79) = true /\ limit_err (f12 40 79) = true /\ limit_err (f12 2 40) = true.
+Proof. exact (conj f12_3x79_rejected (conj f12_40x79_rejected f12_2x40_rejected)). Qed.
+
+(* products below the limit are still accepted *)
+Example C05_F12_products_accepted :
+  depth_of (f12 2 39) = Some 79 /\ depth_of (f12 3 26) = Some 79 /\ depth_of (f12 1 79) = Some 80 /\
+  depth_of (f12 79 1) = Some 80 /\ depth_of (f12 13 6) = Some 79.
+Proof. exact f12_products_accepted. Qed.
+
+(* the three bounds are attained *)
+Example C05_inline_bound_attained : value_depth_of (deep_value 0 (LIMIT - 1)) = Some (LIMIT - 1).
+Proof. exact inline_bound_attained. Qed.
+Example C05_value_bound_attained :
+  value_depth_of (deep_value (LIMIT - 2) (LIMIT - 1)) = Some (2 * LIMIT - 3).
+Proof. exact value_bound_attained. Qed.
+Example C05_value_bound_next_rejected :
+  value_depth_of (deep_value (LIMIT - 1) (LIMIT - 1)) = None /\
+  value_depth_of (deep_value (LIMIT - 2) LIMIT) = None.
+Proof. exact value_bound_next_rejected. Qed.
+Example C05_depth_bound_attained :
+  depth_of (deepest (LIMIT - 1) (LIMIT - 1) (LIMIT - 2) (LIMIT - 1)) = Some DEPTH_BOUND.
+Proof. exact doc_bound_attained. Qed.
